@@ -141,7 +141,20 @@ def cit_cases():
     for tn, ts in (('anysize', NoneT()), ('size', Int(1))):
       out.append(Case('%s-%s' % (pn, tn), dict(input_data=ArrSym(), context=Opaque('context'), preprocessor=ps,
                                                 args_for_sk_checks=sk_args(), tuple_size=ts)))
+    for k in INT_KINDS:
+      out.append(Case('%s-size-%s' % (pn, KIND_NAMES[k]), dict(input_data=ArrSym(kind=k), context=Opaque('context'), preprocessor=ps,
+                                                              args_for_sk_checks=sk_args(), tuple_size=Int(1))))
   return out
+
+
+# C06 "integer arrays ... holding the same numbers as a float64 C array give the same results": the formed data handed to the learners and to
+# transform / pair_distance is floating point whatever the dtype of the argument (differences of unsigned / narrow integers wrap around; F24)
+INT_KINDS = ('i', 'u', 'b')
+KIND_NAMES = {'i': 'signed-integers', 'u': 'unsigned-integers', 'b': 'booleans'}
+
+
+def formed_is_floating(a, r):
+  return z3.BoolVal(r.kind == 'f')
 
 
 def not_consulted(a, events, r):
@@ -177,6 +190,7 @@ register(Contract(
             r.term == a.input_data.term, *[r.dim(k) == a.input_data.dim(k) for k in range(3)])),
         'indices-are-formed-by-preprocessor': lambda a, r: None if a.preprocessor is None else
             z3.Implies(a.input_data.ndim == 2, r.term == TH.ptuples(a.preprocessor, a.input_data.term)),
+        'formed-data-is-floating-point': formed_is_floating,
     },
     raises={'ValueError': May(),
             'PreprocessorError': OnlyIf(lambda a: z3.BoolVal(False) if a.preprocessor is None else a.input_data.ndim == 2)},
@@ -188,8 +202,9 @@ C.unit('C06', '_util:check_input_tuples')
 
 
 def cic_cases():
-  return [Case(pn, dict(input_data=ArrSym(), context=Opaque('context'), preprocessor=ps, args_for_sk_checks=sk_args()))
-          for pn, ps in (('noprep', NoneT()), ('prep', callable_ref()))]
+  return [Case(pn + sfx, dict(input_data=ArrSym(kind=k), context=Opaque('context'), preprocessor=ps, args_for_sk_checks=sk_args()))
+          for pn, ps in (('noprep', NoneT()), ('prep', callable_ref()))
+          for k, sfx in [('f', '')] + [(k_, '-' + KIND_NAMES[k_]) for k_ in INT_KINDS]]
 
 
 register(Contract(
@@ -203,6 +218,7 @@ register(Contract(
             r.term == a.input_data.term, *[r.dim(k) == a.input_data.dim(k) for k in range(2)])),
         'indices-are-formed-by-preprocessor': lambda a, r: None if a.preprocessor is None else
             z3.Implies(a.input_data.ndim == 1, r.term == TH.papply(a.preprocessor, a.input_data.term)),
+        'formed-data-is-floating-point': formed_is_floating,
     },
     raises={'ValueError': May(),
             'PreprocessorError': OnlyIf(lambda a: z3.BoolVal(False) if a.preprocessor is None else a.input_data.ndim == 1)},
